@@ -179,11 +179,11 @@ def body(m, cfg):
         nvec = cfg["nvec"]
         comps = [m.array("xyz"[i], shape, dt) for i in range(nvec)]
         v = Vector(*comps, unit=ua)
-        snaps = [C.snapshot(m, c) for c in v._xyz.values()]
+        snaps = [C.snapshot(m, c) for c in C.vcomps(v).values()]
         try:
             r = v.to(ub)
         except DimensionalityError:
-            ok = da != db and all(C.unchanged(m, c, s) for c, s in zip(v._xyz.values(), snaps))
+            ok = da != db and all(C.unchanged(m, c, s) for c, s in zip(C.vcomps(v).values(), snaps))
             m.require(ok, "raises only for another dimension", key=f"unexpected-raise:{tag}")
             return
         if da != db:
@@ -192,7 +192,7 @@ def body(m, cfg):
         if not m.require(isinstance(r, Vector) and r.nvec == nvec, "result is a Vector with the same components",
                          key=f"type:{tag}"):
             return
-        for (cn, c), s in zip(v._xyz.items(), snaps):
+        for (cn, c), s in zip(C.vcomps(v).items(), snaps):
             _to_checks(m, c, getattr(r, cn), ua, ub, f"{tag}:{cn}", s)
     elif kind in ("repeat", "repeat-vector"):
         mut = cfg["mut"]
